@@ -2012,6 +2012,49 @@ pub fn c08(ix: &Index) -> Vec<Viol> {
                     format!("t={}: {} active collectors but only {} traces are in flight", t, s.s.active_collectors, live_units),
                 ));
             }
+            // parked attachments: at most one entry per attachment call and per trace of its
+            // target, and only for traces still in flight (what was parked for a finished trace
+            // goes with it)
+            let live_set: HashSet<usize> = h
+                .spans
+                .iter()
+                .enumerate()
+                .filter(|(_, r)| r.is_root && !r.noop && r.items[0].sampled && r.create_t.0 < t)
+                .filter(|(_, r)| {
+                    let fin = r.finish_t.map(|f| f.1);
+                    let canc = if h.cancelable { r.cancel_t.first().map(|c| c.1) } else { None };
+                    let end = match (fin, canc) {
+                        (Some(a), Some(b)) => Some(a.min(b)),
+                        (a, b) => a.or(b),
+                    };
+                    !end.map_or(false, done_before)
+                })
+                .map(|(i, _)| i)
+                .collect();
+            let mut bound = 0usize;
+            for a in h.atts.iter().filter(|a| a.route != Route::Creation && a.t.0 < t) {
+                let units: Vec<usize> = match a.target {
+                    ARef::Span(sp) => h.spans[sp].items.iter().filter(|i| i.sampled).map(|i| i.unit).collect(),
+                    ARef::Local(l) => match &h.scopes[h.locals[l].scope].kind {
+                        ScopeKind::Parent { items, .. } => items.iter().filter(|i| i.sampled).map(|i| i.unit).collect(),
+                        ScopeKind::Collector => h.pushes.iter().filter(|p| h.sets[p.set].scope == h.locals[l].scope).flat_map(|p| h.spans[p.span].items.iter().filter(|i| i.sampled).map(|i| i.unit)).collect(),
+                    },
+                    ARef::ScopeRoot(sc) => match &h.scopes[sc].kind {
+                        ScopeKind::Parent { items, .. } => items.iter().filter(|i| i.sampled).map(|i| i.unit).collect(),
+                        ScopeKind::Collector => h.pushes.iter().filter(|p| h.sets[p.set].scope == sc).flat_map(|p| h.spans[p.span].items.iter().filter(|i| i.sampled).map(|i| i.unit)).collect(),
+                    },
+                };
+                bound += units.iter().filter(|u| live_set.contains(u)).count();
+            }
+            // backlog operations attach events to a span of their own filler trace
+            bound += h.bulk_atts.iter().filter(|(u, _, bt)| *bt < t && live_set.contains(u)).map(|(_, n, _)| *n).sum::<usize>();
+            if s.s.danglings > bound && !overflow && !leak_shape {
+                out.push(v(
+                    "C08",
+                    "parked-attachments-exceed-live-traces",
+                    format!("t={}: the collector holds {} parked events/properties, but the traces in flight received at most {} that could be waiting for their span", t, s.s.danglings, bound),
+                ));
+            }
             let live_vts = h
                 .vts
                 .iter()
